@@ -5,3 +5,4 @@ import Iodata.Model.Rd.Mol2
 import Iodata.Model.Rd.Pdb
 import Iodata.Model.Rd.Cube
 import Iodata.Model.Rd.Gro
+import Iodata.Model.Rd.Vasp
